@@ -7,8 +7,15 @@ type Seq uint64
 
 var seq uint64
 
+// Set raises the sequence to s. It never lowers it: the sequence is shared by
+// every database opened in the process, and all of them need it above their persisted data.
 func Set(s Seq) {
-	atomic.CompareAndSwapUint64(&seq, 0, uint64(s))
+	for {
+		cur := atomic.LoadUint64(&seq)
+		if cur >= uint64(s) || atomic.CompareAndSwapUint64(&seq, cur, uint64(s)) {
+			return
+		}
+	}
 }
 
 func Next() Seq {
